@@ -233,7 +233,7 @@ func run(c *Ctx, s *script) {
 	if s.expX != "" && field(ans, "x") != s.expX {
 		c.Violate(Violation{Signature: sig + "/same-phone-overwrite",
 			What:  "a second connection that presents the terminal number and file name of a finished upload replaced the stored file of that upload with its own content",
-			Input: req, Observed: "x=" + field(ans, "x") + " (the file now holds the second connection's bytes)", Required: "x=" + s.expX + " (the first upload's file is untouched)"})
+			Input: req, Observed: "x=" + field(ans, "x") + " (first digit: the file holds the second connection's bytes; second digit: it still holds the first upload's)", Required: "x=" + s.expX})
 	}
 	if s.expV != "" && field(ans, "v") != s.expV {
 		c.Violate(Violation{Signature: sig + "/good-file/" + s.class,
@@ -955,8 +955,8 @@ func genAtt(c *Ctx, budget time.Duration) {
 			s.D(k, Chunk(d, gname, 0, evil))
 			s.D(k, Frame808(0x1212, s.g2019, s.gBcd, 2, Body1211(gname, 0, uint32(len(evil)))))
 			s.F(k)
-			s.toks = append(s.toks, "W", "X:"+path+":"+Hx(evil))
-			s.expX = "0"
+			s.toks = append(s.toks, "W", "X:"+path+":"+Hx(evil), "X:"+path+":"+Hx(gdata)) // not the intruder's bytes; still the good upload's
+			s.expX = "01"
 			s.acceptAtt()
 			run(c, s)
 		}
